@@ -297,6 +297,8 @@ def _check_model(ctx, cls_name, pr, gam, toks, grids, outs, st, st_or, st_g, st_
             # variants: memory layouts of one float64 mesh, and meshes whose FIRST array has another dtype than the others
             # (an integer-valued axis such as a year next to a continuous one; a float32 axis): values, not dtypes, count
             lo0 = float(np.floor(min(subs[0].edge_knots_)))
+            if getattr(subs[0], 'dtype', 'numerical') == 'categorical':
+                lo0 = float(np.ceil(min(subs[0].edge_knots_)))          # a categorical axis is domain-checked: stay inside its knots
             ax_int = [np.array([lo0, lo0 + 1, lo0 + 2]).astype(np.int64)] + axes[1:]
             ax_f32 = [axes[0].astype(np.float32)] + axes[1:]
             variants = []
@@ -304,7 +306,7 @@ def _check_model(ctx, cls_name, pr, gam, toks, grids, outs, st, st_or, st_g, st_
             variants.append(('C', axes, [np.ascontiguousarray(a) for a in mesh_ij]))
             variants.append(('F', axes, [np.asfortranarray(a) for a in mesh_ij]))
             variants.append(('T-view', axes, [np.ascontiguousarray(a.T).T for a in mesh_ij]))
-            if getattr(subs[0], 'spline_order', 1) >= 1 and len(subs) >= 2:
+            if getattr(subs[0], 'spline_order', 1) >= 1 and len(subs) >= 2 and getattr(subs[0], 'dtype', 'numerical') == 'numerical':
                 variants.append(('int64-first-axis', ax_int, list(np.meshgrid(*ax_int, indexing='ij'))))
             variants.append(('float32-first-axis', ax_f32, list(np.meshgrid(*ax_f32, indexing='ij'))))
             for lname, axv, mesh in variants:
